@@ -64,7 +64,15 @@ USER_PARAMS = {"unset": [{"unset_mode": "fa"}, {"unset_mode": "ra"}], "get": [{"
 def impl_tool(tool, vm_strs, nets, rng, extra=None, failing=False):
     from avocado_i2n import intertest_setup
     config = toolseam.base_config(vm_strs, nets, extra=extra)
-    with toolseam.Recorder(rng, status_of=(lambda node: "FAIL") if failing else None) as rec:
+    # failing = True: every test of the step fails; failing = "one": only the tests of the FIRST worker fail (the step has
+    # to report failure all the same: each (vm, worker) node is a test of its own)
+    first = nets.split()[0]
+    status_of = None
+    if failing == "one":
+        status_of = lambda node: "FAIL" if node.params.get("nets") == first else "PASS"
+    elif failing:
+        status_of = lambda node: "FAIL"
+    with toolseam.Recorder(rng, status_of=status_of) as rec:
         try:
             ret = getattr(intertest_setup, tool)(config, tag="0m0")
         except Exception as e:
@@ -192,10 +200,15 @@ def run(ctx, replay=None):
             runs.append((t, ["vm2"], o))
     elif replay and replay["data"].get("vm_strs"):
         restricted[0] = replay["data"]["vm_strs"]
-    terms, obs_all = [], []
+    terms, obs_all, modes = [], [], []
     for ridx, (tool, sel, nets) in enumerate(runs):
         extra = rng.choice(USER_PARAMS[tool]) if rng.random() < 0.6 else None
         failing = rng.random() < 0.35
+        if failing and len(nets.split()) > 1 and rng.random() < 0.5:
+            failing = "one"
+        if replay and "tool" in replay["data"] and "failing" in replay["data"]:
+            extra, failing = replay["data"].get("extra"), replay["data"]["failing"]
+        modes.append((extra, failing))
         vm_strs = restricted.get(ridx) or {v: all_vms[v] for v in sel}
         ret, calls = impl_tool(tool, vm_strs, nets, rng, extra, failing)
         if ridx in restricted:
@@ -241,7 +254,7 @@ def run(ctx, replay=None):
         ctx.obligation("monitor:once-per-selected-vm-and-worker", "monitor", not bad, f"{len(bad)} of {len(runs)} tool runs violate the rule")
         for k in sorted(bad)[:2]:
             ctx.fail(f"C20:tool:{runs[k][0]}", f"{runs[k][0]}: not exactly one execution per selected vm and compatible worker, or wrong parameters",
-                     {"tool": runs[k][0], "vms": runs[k][1], "nets": runs[k][2], "vm_strs": restricted.get(k), "return": obs_all[k][0], "executions": obs_all[k][1],
+                     {"tool": runs[k][0], "vms": runs[k][1], "nets": runs[k][2], "vm_strs": restricted.get(k), "extra": modes[k][0], "failing": modes[k][1], "return": obs_all[k][0], "executions": obs_all[k][1],
                       "wrong": obs_all[k][2], "obligation": "monitor:once-per-selected-vm-and-worker"}, True)
         ctx.count(len(runs), sum(1 for t, s, n in runs if len(n.split()) > 1 and len(s) > 1))
         ctx.coverage["tools_run"] = sorted({t for t, s, n in runs})
